@@ -12,6 +12,7 @@ HERE = os.path.dirname(os.path.dirname(os.path.abspath(__file__)))
 CRATE = os.path.join(HERE, 'replay')
 TARGET = os.path.join(HERE, '.work', 'replay-target')
 _built = {}
+stats = {'runs': 0, 'cases': 0, 'cmds': []}   # totals over every oracle run of this process
 
 
 def build(repo):
@@ -49,9 +50,16 @@ def run_oracle(binary, pid, seed, prefix=None, timeout=300):
         line = line.strip()
         if line.startswith('{'):
             try:
-                res.append(json.loads(line))
+                d = json.loads(line)
             except Exception:
-                pass
+                continue
+            if d.get('summary'):
+                # measured by the oracle binary: loop iterations, each evaluating the real crate on one generated input / edit step
+                stats['runs'] += 1
+                stats['cases'] += int(d.get('cases', 0))
+                stats['cmds'].append(' '.join(os.path.basename(c) if i == len(prefix or []) else c for i, c in enumerate(cmd)) + ' -> %d cases, %d findings' % (d.get('cases', 0), d.get('findings', 0)))
+            else:
+                res.append(d)
     return res
 
 
